@@ -20,7 +20,6 @@ fi
 suite=$(go build ./... 2>&1 | tail -1; go test -vet=off -count=1 . 2>&1 | tail -1)
 cp "$SRC/demo_test.go" ./zz_demo_test.go
 mut_demo=$(go test $DEMOFLAGS -vet=off -count=1 -run 'TestSeeded' . 2>&1 | tail -1)
-cd /; git -C /repo worktree remove --force "$WT"
 echo "  clean demo : $clean_demo"
 echo "  suite w/mut: $suite"
 echo "  mut demo   : $mut_demo"
@@ -28,21 +27,27 @@ ok=1
 case "$clean_demo" in ok*) ;; *) ok=0;; esac
 case "$suite" in ok*) ;; *) ok=0;; esac
 case "$mut_demo" in FAIL*|*FAIL*) ;; *) ok=0;; esac
-if [ $ok -ne 1 ]; then echo "RESULT $ID: NOT CONFIRMED"; exit 5; fi
-# detection
-git -C /repo apply "$SRC/patch.diff" || exit 6
+if [ $ok -ne 1 ]; then echo "RESULT $ID: NOT CONFIRMED"; cd /; git -C /repo worktree remove --force "$WT"; exit 5; fi
+# detection: the checks are built against the patched scratch worktree (same effect as applying the
+# patch to /repo and reverting it, without touching /repo while other runs build from it)
+rm -f zz_demo_test.go
+MOD=/verif/.build/seed-$ID.mod
+mkdir -p /verif/.build
+sed "s#=> /repo#=> $WT#" /verif/sim/go.mod > "$MOD"
+cat "$WT/go.sum" /verif/sim/go.sum.extra | sort -u > "${MOD%.mod}.sum"
 caught=""
 for P in $PROPS; do
   RACE=""; [ "$P" = "C19" ] && RACE="-race"
-  ( cd /verif/sim && go build -tags verif $RACE -o /verif/.build/simkv-seed . ) || { git -C /repo checkout -- .; echo "RESULT $ID: harness build failed"; exit 7; }
-  out=$(cd /verif && VERIF_WATCHDOG_S=${WD:-400} VERIF_DIR=/verif ./.build/simkv-seed check -prop "$P" -tier "${TIER:-quick}" -no-evidence 2>&1)
+  ( cd /verif/sim && go build -modfile="$MOD" -tags verif $RACE -o /verif/.build/simkv-seed-$ID . ) || { echo "RESULT $ID: harness build failed"; cd /; git -C /repo worktree remove --force "$WT"; exit 7; }
+  out=$(cd /verif && VERIF_WATCHDOG_S=${WD:-400} VERIF_DIR=/verif ./.build/simkv-seed-$ID check -prop "$P" -tier "${TIER:-quick}" -no-evidence 2>&1)
   rc=$?
   nv=$(echo "$out" | grep -c '^VIOLATION')
   first=$(echo "$out" | grep -A1 '^VIOLATION' | grep 'kind=' | head -1 | cut -c1-260)
   echo "  check $P: rc=$rc violations=$nv $first"
   [ $rc -eq 1 ] && caught="$caught $P"
 done
-git -C /repo checkout -- .
+rm -f "$MOD" "${MOD%.mod}.sum" /verif/.build/simkv-seed-$ID
+cd /; git -C /repo worktree remove --force "$WT"
 mkdir -p /verif/seeded/$ID
 cp "$SRC/patch.diff" "$SRC/demo_test.go" /verif/seeded/$ID/
 python3 - "$SRC/meta.json" "/verif/seeded/$ID/meta.json" "$ID" "$caught" "$PROPS" <<'PY'
